@@ -196,6 +196,31 @@ class Grammar:
                     yield b, it
 
 
+def reachable(g, entry):
+    """live builders reachable from an entry-point builder through live calls"""
+    seen, todo = set(), [entry]
+    lv = g.liveness
+    while todo:
+        f = todo.pop()
+        if f in seen or f not in lv.funcs:
+            continue
+        seen.add(f)
+        for node in lv.live_walk(f):
+            if isinstance(node, ast.Call) and isinstance(node.func, ast.Name) and node.func.id in lv.funcs:
+                todo.append(node.func.id)
+    return seen
+
+
+def alphabet(g, entry):
+    """operation types that can appear in the sequence built by `entry`"""
+    out = set()
+    for f in reachable(g, entry):
+        b = g.builders.get(f)
+        if b:
+            out |= {it.type for it in b.items if it.kind == "op" and it.live}
+    return out
+
+
 def diff_const(a, b):
     """a - b as a constant, or None if not constant / not linear"""
     if a is None or b is None:
